@@ -34,15 +34,35 @@ def run_property(pid, tier, write=True, root=None):
         return 2, rep
     from . import core as _core
     del _core.ALL_INTERPS[:]
+    _core.DECORATED_ENTRIES.clear()
+    _core.CALL_FORM[:] = [None, False]
+
+    def one_form():
+        run_stepwise(mod, prog, rep, tier)
     try:
-        mod.run(prog, rep, tier)
-    except Inconclusive as e:
-        w = e.where or {"file": "?", "line": getattr(e.node, "lineno", 0), "function": "?", "construct": str(e.why)[:160]}
-        rep.unk("ENGINE", w, "analysis left the modelled fragment: %s" % e.why)
+        one_form()
+        # entry points behind decorators: a wrapper that re-packs *args / **kwargs can treat positional and keyword arguments
+        # differently, so the whole check is repeated for every way of passing the arguments (first k by position, the others by
+        # keyword, in signature order and reversed); verdicts accumulate in the same report
+        if _core.DECORATED_ENTRIES:
+            nmax = max(_core.DECORATED_ENTRIES.values())
+            forms = [(k, rev) for k in range(nmax - 1, -1, -1) for rev in (False, True) if not (rev and nmax - k < 2)]
+            rep.analysed["decorated_entry_points"] = sorted(_core.DECORATED_ENTRIES)
+            rep.analysed["call_forms"] = 1 + len(forms)
+            for k, rev in forms:
+                _core.CALL_FORM[:] = [k, rev]
+                rep.form = "called with the first %d argument(s) by position and the others by keyword%s" % (k, " (reverse order)" if rev else "")
+                one_form()
+            rep.form = None
+            _core.CALL_FORM[:] = [None, False]
+            from .props.common import decorator_slots
+            decorator_slots(rep, prog, _core.ALL_INTERPS)
     except Exception:
         traceback.print_exc()
         analysis_error(pid, "checker crashed: see traceback")
         return 2, rep
+    finally:
+        _core.CALL_FORM[:] = [None, False]
     if tier == "thorough":
         try:
             from . import selftest, sweeps
@@ -72,15 +92,18 @@ def run_property(pid, tier, write=True, root=None):
             rep.unk("SELFTEST", {"file": "-", "line": 0, "function": "-", "construct": "catalogue"}, "self-validation could not run: %s" % e.why)
     # unmodelled constructs matter only where the check looked: inside the functions it analysed, or at module level of a
     # module one of them lives in (star imports, decorated definitions it resolved names through)
-    visited = set()
+    visited, decorated_ok = set(), set()
     for it in _core.ALL_INTERPS:
         visited |= set(it.visited_funcs)
+        decorated_ok |= set(it.decorated_ok)
     vmods = {q.rsplit(".", 2)[0] if q.rsplit(".", 1)[0] not in prog.modules else q.rsplit(".", 1)[0] for q in visited}
     forb = []
     for m in prog.modules.values():
         if m.name in ("sempler.plot",):
             continue
         for ln, what, owner in m.forbidden_in:
+            if what.startswith("decorator @") and owner in decorated_ok:
+                continue        # the decorator was applied by evaluating it: the check analysed the function through its wrapper
             if (owner is not None and owner in visited) or (owner is None and m.name in vmods and what == "star import"):
                 forb.append((m.relpath, ln, what))
     for rel, ln, what in forb:
@@ -89,6 +112,67 @@ def run_property(pid, tier, write=True, root=None):
     info = dict(prog.stats(), repo=prog.root, files=prog.digest())
     code = rep.finish(info, getattr(mod, "EXPLANATION", mod.__doc__ or pid), write=write)
     return code, rep
+
+
+def run_stepwise(mod, prog, rep, tier):
+    """Execute `mod.run(prog, rep, tier)` one top-level statement at a time.  A rule group that leaves the modelled fragment
+    (Inconclusive) is recorded as such and the *other* rule groups still run: an unreadable idiom in one place must not hide a
+    violation that an independent rule can decide (the verdict is still at best "inconclusive" unless such a violation is found)."""
+    import ast
+    import inspect
+    import textwrap
+    try:
+        src = inspect.getsource(mod.run)
+        fn = ast.parse(textwrap.dedent(src)).body[0]
+        first = inspect.getsourcelines(mod.run)[1]
+    except (OSError, TypeError, SyntaxError):
+        fn = None
+    if fn is None or [a.arg for a in fn.args.args] != ["prog", "rep", "tier"]:
+        try:
+            mod.run(prog, rep, tier)
+        except Inconclusive as e:
+            w = e.where or {"file": "?", "line": getattr(e.node, "lineno", 0), "function": "?", "construct": str(e.why)[:160]}
+            rep.unk("ENGINE", w, "analysis left the modelled fragment: %s" % e.why)
+        return
+    from .core import Interp
+
+    class _StopRun(Exception):
+        pass
+
+    class _Ret(ast.NodeTransformer):
+        """`return` inside a compound statement of run(): stop the run"""
+        def visit_FunctionDef(self, node):
+            return node
+
+        def visit_Lambda(self, node):
+            return node
+
+        def visit_Return(self, node):
+            return ast.copy_location(ast.Raise(exc=ast.Call(func=ast.Name(id="_StopRun", ctx=ast.Load()), args=[], keywords=[]), cause=None), node)
+    ns = dict(vars(mod))
+    ns.update(prog=prog, rep=rep, tier=tier, _StopRun=_StopRun)
+    poisoned = set()       # variables of run() that an inconclusive step left unset or half-filled
+    for st in fn.body:
+        if isinstance(st, ast.Return):
+            break
+        loaded = {x.id for x in ast.walk(st) if isinstance(x, ast.Name) and isinstance(x.ctx, ast.Load)}
+        stored = {x.id for x in ast.walk(st) if isinstance(x, ast.Name) and isinstance(x.ctx, ast.Store)}
+        if loaded & poisoned:
+            # this step reads what an inconclusive step should have produced: it decides nothing (and must not report anything)
+            poisoned |= stored
+            rep.notes.append("step at line %d skipped: it depends on an inconclusive step (%s)" % (first + st.lineno - 1, ", ".join(sorted(loaded & poisoned))))
+            continue
+        m = ast.fix_missing_locations(ast.Module(body=[_Ret().visit(st)], type_ignores=[]))
+        ast.increment_lineno(m, first - 1)
+        try:
+            exec(compile(m, getattr(mod, "__file__", "<check>"), "exec"), ns)
+        except _StopRun:
+            break
+        except Inconclusive as e:
+            poisoned |= stored
+            poisoned |= {x for x in loaded if isinstance(ns.get(x), Interp)}        # an interpreter that stopped half-way
+            w = e.where or {"file": "?", "line": getattr(e.node, "lineno", 0), "function": "?", "construct": str(e.why)[:160]}
+            rep.unk("ENGINE", w, "analysis left the modelled fragment: %s" % e.why)
 
 
 def seed_regression(pid, root):
